@@ -198,7 +198,46 @@ func newSchedGen(r *RNG, tier string, profile string) *schedGen {
 				}
 			}
 		}
+		// flush-window variant (c06): a Flush is stopped between writing its records and publishing them in the bucket table (or
+		// at another point inside commit), with several dirty buckets and tiny index files so that the file rolls over inside
+		// the flush; a collector cycle runs in the window (on the unchanged code it blocks on flushLock until the window
+		// closes). No data call runs, so nothing overlaps a collector mutation (D18 cannot mask what the window exposes).
+		flushWin := profile == "c06" && !window && r.Bool(15)
+		if flushWin {
+			// (more buckets; the key universe stays prefix-free, the premise of C01)
+			more := genDigests(r, bits, 2+r.Intn(3))
+			for _, d := range more {
+				clash := false
+				for _, o := range digests {
+					if isPrefix(o, d) || isPrefix(d, o) {
+						clash = true
+					}
+				}
+				if !clash {
+					digests = append(digests, d)
+					keys = append(keys, hx(mkMultihash(0x12, d)))
+				}
+			}
+			for _, k := range keys {
+				if r.Bool(85) {
+					g.ops = append(g.ops, mkOp("sprep", "op", "put:"+k+":"+val()))
+				}
+			}
+			gop := "igc:0"
+			switch r.Pick(60, 20, 20) {
+			case 1:
+				gop = "igc:1"
+			case 2:
+				gop = "pgc:" + strconv.Itoa([]int{0, 50, 85}[r.Intn(3)])
+			}
+			g.ops = append(g.ops, mkOp("sthread", "name", "f", "ops", "flush"), mkOp("sthread", "name", "g", "ops", gop))
+			g.window = "f:" + []string{"index.flush.written", "index.flush.written", "index.flush.written", "index.flush.swapped", "primary.flush.written",
+				"store.commit.primary_done", "index.flush.buckets_updated"}[r.Intn(7)] + ":1"
+		}
 		nt := 2 + r.Intn(2)
+		if flushWin {
+			nt = 0
+		}
 		// owned mode: every key has one writer (key i belongs to thread i mod nt), so that no two mutators of ONE key overlap
 		// (known finding D17) and every lost or resurrected update is attributable to interference BETWEEN keys
 		owned := r.Bool(50) || window
@@ -249,7 +288,7 @@ func newSchedGen(r *RNG, tier string, profile string) *schedGen {
 			}
 			g.ops = append(g.ops, mkOp("sthread", "name", fmt.Sprintf("t%d", t), "ops", strings.Join(ops, ",")))
 		}
-		if r.Bool(70) && !(window && r.Bool(60)) {
+		if !flushWin && r.Bool(70) && !(window && r.Bool(60)) {
 			g.ops = append(g.ops, mkOp("sthread", "name", "f", "ops", "flush"))
 			// two Flush callers (the periodic flusher and an explicit call) overlap each other and the writers
 			if r.Bool(45) {
@@ -273,7 +312,7 @@ func newSchedGen(r *RNG, tier string, profile string) *schedGen {
 				g.ops = append(g.ops, mkOp("sthread", "name", "g", "ops", gop))
 				g.window = "g:" + points[r.Intn(len(points))] + ":" + strconv.Itoa(1+r.Intn(3))
 			}
-		} else if profile == "c06" {
+		} else if profile == "c06" && !flushWin {
 			var ops []string
 			for j := 0; j < 1+r.Intn(2); j++ {
 				if r.Bool(55) {
